@@ -28,7 +28,11 @@ func VerifC16Env() {
 		ev = vrtString("environmentK", L, "gh")
 	}
 	va := vrtString("file1A", L, "ij")
+	// the referenced project value may carry what would be an inline comment or trailing blanks if it were re-scanned
 	vp := vrtString("projectEnvPEV", L, "kl")
+	if vrtParam("PEVSUFFIX", 0) == 1 {
+		vp += []string{"", " #x", "  ", "\t"}[vrtChoice("projectEnvPEVSuffix", 4)]
+	}
 	vo := vrtString("projectEnvOUTER", L, "mn")
 	env := types.Mapping{"PEV": vp, "OUTER": vo}
 	if inPE {
@@ -197,7 +201,13 @@ func VerifC16Labels() {
 	if present2 {
 		vrtFile(w+"/l2.env", f2)
 	}
-	s := map[string]any{"image": "i", "label_file": []any{"l1.env", "l2.env"}}
+	// a third file references a key that both earlier files may define: it sees the latest definition
+	redefine := vrtChoice("file2RedefinesA", 2) == 1
+	if redefine && present2 {
+		vrtFile(w+"/l2.env", "A=second\n"+f2)
+	}
+	vrtFile(w+"/l3.env", "R3=${A}\n")
+	s := map[string]any{"image": "i", "label_file": []any{"l1.env", "l2.env", "l3.env"}}
 	if inLabels {
 		s["labels"] = map[string]any{"L": own}
 	}
@@ -227,5 +237,10 @@ func VerifC16Labels() {
 	vrtObserve("L", got)
 	vrtAssert("label-presence", ok == set)
 	vrtAssert("label-layering", got == want)
+	if redefine {
+		vrtAssert("label-reference-latest-earlier-file", l["R3"] == "second")
+		return
+	}
 	vrtAssert("label-reference-earlier-file", l["R"] == va)
+	vrtAssert("label-reference-latest-earlier-file", l["R3"] == va)
 }
